@@ -1319,8 +1319,9 @@ def nonfused_correspondence(ctx, rng, res, cases, n):
         for line, I, M in zip(lines, impl, model):
             res.evals += 1
             mi, _, ml = M.partition(" | L ")
-            if I != mi:
-                res.drift.append(dict(case=line[:300], cfg=c, impl=I, model=mi, note="iterator-level model differs from the real code on a non-fused iterator"))
+            if I != mi and not (I.startswith("panic") and mi.startswith("panic")):
+                # outside C16's domain (non-fused iterators): recorded, never drift and never a verdict
+                res.extra.setdefault("nonfused_model_differences", []).append(dict(case=line[:300], cfg=c, impl=I, model=mi))
             if mi != ml:
                 differs_from_list += 1
     res.extra["nonfused_iterator_cases"] = len(lines)
